@@ -1,8 +1,112 @@
 (* C16 — property theorems only: pinned statement, `exact`, Print Assumptions. *)
 From Coq Require Import ZArith NArith List Bool.
 Import ListNotations.
-From L4 Require Import Model.Civil Model.TZ Model.TimeTrig Proofs.TimeTrigBasic.
+From L4 Require Import Model.Civil Model.TZ Model.TimeTrig Proofs.Civil Proofs.TZ Proofs.TimeTrigBasic Proofs.TimeTrig.
 Local Open Scope Z_scope.
+
+(* Vocabulary (Proofs/TimeTrig.v, Proofs/TZ.v):
+   spec_next u n modulate l   the LOCAL time the property asks for, from the local time l of now:
+                              n units after the start of the current unit / the next multiple of n
+                              counted from the start of the enclosing period (minute, hour, day,
+                              year, ISO year, year, -) -- floor arithmetic + month_start/jan1/
+                              iso_year_start, no zone involved
+   unit_start u l             local start of the unit containing l
+   sane K z                   zone table well separated (offsets within [-K,K], transitions > 2K apart)
+   n_ok u n l                 1 <= n, n < 2^31 (years) / n < 2^32 and 1970 <= local now <= chrono max (months)
+   natural_hyp z now u n m    the offset in force at now is in force from unit_start (read under it)
+                              to the later of now and the expected boundary        [decidable: natural_ok_b]
+   core_hyp                   the weaker hypothesis actually needed (from the local time handed to chrono to now)
+   in_range u n l             the result stays inside chrono's date range *)
+
+(* --- the schedule lies strictly after now --- *)
+Theorem C16_next_strictly_after :
+  forall K z now u n m t,
+    sane K z = true -> n_ok u n (now + offset_at z now) -> core_hyp z now u n m ->
+    get_next_time z now u n m = Ok t -> now < t.
+Proof. exact next_strictly_after. Qed.
+Print Assumptions C16_next_strictly_after.
+
+(* --- and is exactly the expected boundary, read under the offset in force at now --- *)
+Theorem C16_schedule_exact :
+  forall K z now, sane K z = true ->
+  forall u n m t, n_ok u n (now + offset_at z now) -> core_hyp z now u n m ->
+    get_next_time z now u n m = Ok t ->
+    t = spec_next u n m (now + offset_at z now) - offset_at z now.
+Proof. exact schedule_exact_core. Qed.
+Print Assumptions C16_schedule_exact.
+
+(* --- boundary alignment in local time, all seven units, with and without modulation --- *)
+Theorem C16_boundary_aligned :
+  forall K z now u n m t,
+    sane K z = true -> n_ok u n (now + offset_at z now) -> natural_hyp z now u n m ->
+    get_next_time z now u n m = Ok t ->
+    now < t /\ local z t = spec_next u n m (local z now).
+Proof. exact boundary_aligned_natural. Qed.
+Print Assumptions C16_boundary_aligned.
+
+Theorem C16_natural_class_decidable :
+  forall z now u n m, natural_ok_b z now u n m = true -> natural_hyp z now u n m.
+Proof. exact natural_ok_b_sound. Qed.
+Print Assumptions C16_natural_class_decidable.
+
+(* the expected local time is strictly later than now's local time and is itself the
+   start of a unit (second / minute / hour / local midnight / Monday midnight / first of
+   a month / 1 January) *)
+Theorem C16_spec_is_future_boundary :
+  forall u n m l, 1 <= n ->
+    l < spec_next u n m l /\ unit_start u (spec_next u n m l) = spec_next u n m l /\ unit_start u l <= l.
+Proof.
+  intros u n m l Hn. split; [exact (spec_next_after u n m l Hn)|].
+  split; [exact (spec_next_on_boundary u n m l)|exact (unit_start_le u l)].
+Qed.
+Print Assumptions C16_spec_is_future_boundary.
+
+(* what the calendar vocabulary of spec_next means *)
+Theorem C16_calendar_meaning :
+  (forall z, jan1 (year_of z) <= z < jan1 (year_of z + 1)) /\
+  (forall z, month_start (month_index z) <= z < month_start (month_index z + 1)) /\
+  (forall k1 k2, k1 < k2 -> month_start k1 < month_start k2) /\
+  (forall z y m d, civil_from_days z = (y, m, d) ->
+     days_from_civil y m d = z /\ 1 <= m <= 12 /\ 1 <= d <= 31 /\
+     month_start (12 * y + (m - 1)) <= z < month_start (12 * y + (m - 1) + 1)) /\
+  (forall z, z - weekday_mon z = iso_year_start (iso_year z) + 7 * iso_week0 z /\
+             0 <= iso_week0 z <= 52 /\
+             iso_year_start (iso_year z) <= z < iso_year_start (iso_year z + 1)) /\
+  (forall y, weekday_mon (iso_year_start y) = 0 /\
+             iso_year_start (y + 1) - iso_year_start y = 7 * iso_weeks_in_year y).
+Proof.
+  split; [exact year_of_bounds'|]. split; [exact month_index_bounds|].
+  split; [exact month_start_mono|]. split; [exact civil_from_days_spec|].
+  split; [exact iso_week0_spec|].
+  intros y. split; [exact (iso_year_start_monday y)|exact (iso_len y)].
+Qed.
+Print Assumptions C16_calendar_meaning.
+
+(* --- no panic: zone without transitions, interval in range --- *)
+Theorem C16_no_panic_fixed_offset :
+  forall z now u n m,
+    z_trans z = [] -> -86400 <= z_init z <= 86400 ->
+    in_range u n (now + z_init z) ->
+    exists t, get_next_time z now u n m = Ok t.
+Proof. exact no_panic_fixed_offset. Qed.
+Print Assumptions C16_no_panic_fixed_offset.
+
+(* --- fires on the first record at or after the schedule, then the new schedule
+       (computed from the firing instant + delay) is in the future and no later
+       record before it fires --- *)
+Theorem C16_fires_once_then_future :
+  forall K z c next now ns r nx,
+    sane K z = true -> 0 <= ns ->
+    n_ok (c_unit c) (c_n c) (now + offset_at z now) ->
+    core_hyp z now (c_unit c) (c_n c) (c_mod c) ->
+    0 <= r < Z.max (c_maxd c) 1 -> c_maxd c <= 18446744073709551615 -> r < 9223372036854775808 ->
+    trigger_step z c next now ns r = Ok (true, nx) ->
+    next <= now /\
+    nx = spec_next (c_unit c) (c_n c) (c_mod c) (now + offset_at z now) - offset_at z now + r /\
+    now < nx /\
+    (forall now' ns' r', now' < nx -> 0 <= ns' -> trigger_step z c nx now' ns' r' = Ok (false, nx)).
+Proof. exact fires_once_then_future. Qed.
+Print Assumptions C16_fires_once_then_future.
 
 (* The trigger fires exactly on a record arriving at or after the scheduled
    instant; only then is the schedule replaced, by TimeTrigger::new evaluated at
@@ -82,3 +186,41 @@ Theorem C16_absurd_interval_panics_refuted :
   (exists t, get_next_time utc0 1700000000 UMonth 4294967296 false = Ok t /\ t <= 1700000000).
 Proof. exact absurd_interval_panics. Qed.
 Print Assumptions C16_absurd_interval_panics_refuted.
+
+(* ---- non-vacuity ---- *)
+
+(* 2024-02-29 23:59:58 UTC (leap day, two seconds before the month end) *)
+Example C16_ex_leap_day_utc :
+  get_next_time utc0 1709251198 UDay 1 false = Ok 1709251200 /\     (* 2024-03-01 00:00:00 *)
+  get_next_time utc0 1709251198 UMonth 1 false = Ok 1709251200 /\
+  get_next_time utc0 1709251198 UYear 1 false = Ok 1735689600 /\    (* 2025-01-01 *)
+  get_next_time utc0 1709251198 UWeek 1 false = Ok 1709510400 /\    (* Monday 2024-03-04 *)
+  get_next_time utc0 1709251198 UWeek 4 true = Ok 1711324800 /\     (* ISO week 13: Monday 2024-03-25 *)
+  get_next_time utc0 1709251198 USecond 1 false = Ok 1709251199 /\
+  get_next_time utc0 1709251198 UMinute 7 true = Ok 1709251380 /\   (* 2024-03-01 00:03:00 *)
+  sane 0 utc0 = true /\ n_ok UMonth 1 (1709251198 + offset_at utc0 1709251198) /\
+  n_ok UYear 1 (1709251198 + offset_at utc0 1709251198) /\
+  natural_hyp utc0 1709251198 UMonth 1 false /\
+  in_range UMonth 1 (1709251198 + z_init utc0) /\ in_range UYear 1 (1709251198 + z_init utc0) /\
+  in_range UDay 1 (1709251198 + z_init utc0).
+Proof. exact ex_leap_day_utc. Qed.
+
+(* Europe/Berlin 2025-06-15 12:00 CEST: the hypotheses hold in a DST zone; they fail on the
+   fall-back day (Day, 23:10 CET) and across the overlap's end (Hour, 02:30 CEST); inside the
+   second pass of the repeated hour they hold although the code panics (so "no panic" is
+   claimed for fixed-offset zones only) *)
+Example C16_ex_berlin_summer :
+  sane 7200 berlin2025 = true /\
+  natural_ok_b berlin2025 1749981600 UDay 1 false = true /\
+  natural_ok_b berlin2025 1749981600 UHour 3 true = true /\
+  natural_ok_b berlin2025 1749981600 UWeek 1 false = true /\
+  natural_ok_b berlin2025 1749981600 UMonth 1 false = true /\
+  get_next_time berlin2025 1749981600 UDay 1 false = Ok 1750024800 /\
+  get_next_time berlin2025 1749981600 UHour 3 true = Ok 1749992400 /\
+  get_next_time berlin2025 1749981600 UWeek 1 false = Ok 1750024800 /\
+  get_next_time berlin2025 1749981600 UMonth 1 false = Ok 1751320800 /\
+  natural_ok_b berlin2025 1761516600 UDay 1 false = false /\
+  natural_ok_b berlin2025 1761438600 UHour 1 false = false /\
+  natural_ok_b berlin2025 1761442200 UHour 1 false = true /\
+  get_next_time berlin2025 1761442200 UHour 1 false = Panic 3.
+Proof. exact ex_berlin_summer. Qed.
